@@ -635,6 +635,18 @@ class AttrToFunc(ast.NodeTransformer):
         return node
 
 
+class TransposeToT(ast.NodeTransformer):
+    """np.transpose(x) -> np.asarray(x).T  (one argument; np.transpose converts its argument in the same way)"""
+
+    def visit_Call(self, node):
+        self.generic_visit(node)
+        f = node.func
+        if isinstance(f, ast.Attribute) and f.attr == "transpose" and isinstance(f.value, ast.Name) and f.value.id == "np" and len(node.args) == 1 and not node.keywords:
+            conv = ast.Call(func=ast.Attribute(value=ast.Name(id="np", ctx=ast.Load()), attr="asarray", ctx=ast.Load()), args=node.args, keywords=[])
+            return ast.Attribute(value=conv, attr="T", ctx=ast.Load())
+        return node
+
+
 class SplitChain(ast.NodeTransformer):
     """a < b < c -> a < b and b < c   when b is a name, attribute, subscript of names or constant (evaluating it twice changes nothing)"""
 
@@ -650,7 +662,7 @@ class SplitChain(ast.NodeTransformer):
 
 
 EXTRA = {"demorgan": DeMorgan, "nest-and": NestAnd, "merge-nested": MergeNested, "split-or": SplitOr, "flag-guard": FlagGuard, "any-all-dual": AnyAllDual,
-         "comp-to-loop": CompToLoop, "return-temp": ReturnTemp, "ifexp-to-if": IfExpToIf, "kwargs-dict": KwargsDict, "star-args": StarArgs, "split-chain": SplitChain, "attr-to-func": AttrToFunc}
+         "comp-to-loop": CompToLoop, "return-temp": ReturnTemp, "ifexp-to-if": IfExpToIf, "kwargs-dict": KwargsDict, "star-args": StarArgs, "split-chain": SplitChain, "attr-to-func": AttrToFunc, "transpose-to-T": TransposeToT}
 
 COMPOSED = ("keywordize", "rename", "commute", "invert-if", "yoda", "method-to-function", "else-after-return", "reverse-keywords", "fstring", "unpack-to-index",
             "demorgan", "split-or", "flag-guard", "any-all-dual", "comp-to-loop", "return-temp", "kwargs-dict", "split-chain")
